@@ -366,7 +366,7 @@ def classify_failure(harness, model, seed, i, f):
 def new_stats():
     return {'goja_runs': 0, 'compared': 0, 'metamorphic': 0, 'model_variant': 0, 'lean_rw': 0, 'lean_rw_changed': 0, 'lean_blockwrap': 0, 'goja_kind': {},
             'model_kind': {}, 'rw_applied': {}, 'dump_changed': {}, 'ins_shift': {}, 'programs': 0, 'nontriv': [],
-            'src_len': 0, 'samples': [], 'cut_short': 0, 'inconclusive_batches': 0}
+            'src_len': 0, 'samples': [], 'cut_short': 0, 'inconclusive_batches': 0, 'with_pairs': 0, 'with_pairs_bytecode_differs': 0}
 
 
 def merge_stats(a, b):
@@ -404,6 +404,18 @@ def work(args):
             greq += gq; mlines += ml; plans[tag] = plan
             st['programs'] += 1
             st['src_len'] += len(G.to_js(prog))
+        # goja-only metamorphic pairs with `with` (outside MiniJS): inner let captured vs not captured, sloppy mode
+        wpairs = {}
+        for i in range(b0, min(b0 + batch, start + count)):
+            for k in range(2):
+                o_src, v_src = G.gen_with_pair(random.Random('%d/w%d/%d' % (seed, i, k)))
+                for pl in PLACEMENTS:
+                    wrap = (lambda x: x) if pl == 'global' else ((lambda x: '(function () { %s })();' % x) if pl == 'function'
+                                                                 else (lambda x: 'eval(%s)' % json.dumps(x)))
+                    wid = 'w%d.%d|%s' % (i, k, pl)
+                    wpairs[wid] = (wrap(o_src), wrap(v_src))
+                    greq.append(json.dumps({'id': wid + '|o', 'src': wrap(o_src), 'strict': False, 'timeout_ms': 3000}))
+                    greq.append(json.dumps({'id': wid + '|v', 'src': wrap(v_src), 'strict': False, 'timeout_ms': 3000}))
         gout = None
         for attempt in (1, 2):
             try:
@@ -413,6 +425,22 @@ def work(args):
                 st['inconclusive_batches'] = st.get('inconclusive_batches', 0) + 1     # slow machine: retry, never a verdict
         if gout is None:
             continue
+        for wid, (o_src, v_src) in wpairs.items():
+            go, gv = gout.get(wid + '|o'), gout.get(wid + '|v')
+            if go is None or gv is None:
+                fails.append({'kind': 'harness-missing', 'tag': wid, 'id': wid})
+                continue
+            st['goja_runs'] += 2
+            st['with_pairs'] += 1
+            for g_, src_ in ((go, o_src), (gv, v_src)):
+                if g_['out'].split(' ')[0] in BADKINDS:
+                    fails.append({'kind': 'goja-' + g_['out'].split(' ')[0].lower(), 'tag': wid, 'rewrite': 'with_inner_capture',
+                                  'expected': 'an outcome (the program is valid)', 'observed': g_['out'], 'src': src_, 'seed': seed})
+            if go['out'] != 'timeout' and gv['out'] != 'timeout' and go['full'] != gv['full']:
+                fails.append({'kind': 'variant-vs-original', 'tag': wid, 'rewrite': 'with_inner_capture', 'placement': wid.split('|')[1],
+                              'strict': False, 'expected': go['full'], 'observed': gv['full'], 'src': v_src, 'original_src': o_src, 'seed': seed})
+            if go['dump'] != gv['dump']:
+                st['with_pairs_bytecode_differs'] += 1
         for tag, plan in plans.items():
             n0 = len(fails)
             check_program(tag, plan, gout, mout, st, fails, have_model=bool(model))
@@ -589,6 +617,7 @@ def main(ctx):
         'goja_outcome_kinds': st['goja_kind'], 'model_outcome_kinds': st['model_kind'], 'rewrite_applications': st['rw_applied'],
         'bytecode_skeleton_changed_by_rewrite': {k: '%d/%d' % (v[0], v[1]) for k, v in st['dump_changed'].items()},
         'instruction_category_shift': st['ins_shift'], 'avg_source_len': st['src_len'] // max(1, st['programs']),
+        'with_capture_pairs': st.get('with_pairs', 0), 'with_capture_pairs_bytecode_differs': st.get('with_pairs_bytecode_differs', 0),
         'jobs_cut_by_coverage_cap': st.get('cut_short', 0), 'inconclusive_batches_retried': st.get('inconclusive_batches', 0),
     })
     kinds = {}
@@ -618,6 +647,16 @@ def main(ctx):
         seen = 0
         fl = [f for f in fl0 if not ctx.known_signature(f.get('sig'))]
         for f in fl:
+            if 'seed_index' not in f and f.get('rewrite') == 'with_inner_capture' and seen < 2:
+                seen += 1
+                sig = '%s:with_inner_capture:%s' % (k, hashlib.sha1((f.get('src') or '').encode()).hexdigest()[:10])
+                ctx.violation(sig, '%s with_inner_capture placement=%s (sloppy): capturing an inner let in a never-called closure changes the '
+                              'behaviour inside `with`: expected %s, goja gives %s' % (k, f.get('placement'), f.get('expected'), f.get('observed')),
+                              {'kind': 'program', 'failure': {'case': {'id': 'variant', 'src': f.get('src'), 'strict': False, 'timeout_ms': 3000},
+                                                              'original_case': {'id': 'original', 'src': f.get('original_src'), 'strict': False, 'timeout_ms': 3000},
+                                                              'expected': f.get('expected'), 'observed': f.get('observed')},
+                               'source': f.get('src')})
+                continue
             if seen >= 2 or 'seed_index' not in f:
                 break
             seen += 1
